@@ -7,7 +7,7 @@ ASSUMPTIONS = [
     "objects of capacity <= NARY digits are whole `struct bint`s with sentinel-filled slack: a store beyond placea is detected through the sentinel (for every sentinel value), a LOAD beyond placea but inside the struct is not detected as a memory error (it would make the value postcondition fail if the value matters)",
     "TimesStep/TimesDouble identities are stated in 64-bit unsigned arithmetic; that (2^32-1)^2 + 2(2^32-1) = 2^64-1 does not wrap is a pencil-and-paper fact, not a solver result",
     "right shifts and bit tests are specified on the magnitude (sign-magnitude, quotient by 2^n truncated toward zero), as the property's rule for quotients; bintBit on a negative number tests |b| (the code's own '!! This should handle negative numbers' is not resolved by the property text)",
-    "bintPlus/bintMinus: the real body of each, one job per operand shape x sign case (16 per function); the calls they make to themselves and each other are bound (definition renamed on every run) to a model of the contract being checked, whose precondition - operand form and BOTH OPERANDS NON-NEGATIVE, the decreases clause - is an obligation at every re-entry; an operand in the immediate representation is a tagged integer cast to a pointer, which the SAT flattening cannot handle (> 43 GB in post-processing): those shapes are discharged by z3; mixed shapes (imm/stored) in the thorough tier only",
+    "bintPlus/bintMinus: the real body of each, one job per operand shape x sign case (16 per function); the calls they make to themselves and each other are bound (definition renamed on every run) to a model of the contract being checked, whose precondition - operand form and BOTH OPERANDS NON-NEGATIVE, the decreases clause - is an obligation at every re-entry; an operand in the immediate representation is a tagged integer cast to a pointer, which the SAT flattening cannot handle (> 43 GB in post-processing): those shapes are discharged by z3; all of these whole-body jobs are in the THOROUGH tier only (3-20 min each, large spread between runs)",
     "class B jobs: every operand has at most 3 digits (96 bits), all digit values, signs, lengths and capacities symbolic; nothing is claimed beyond that size",
     "UNDECIDED, not claimed: the arithmetic identities of iintTimes, iintTimesS, iintTimesPlusS, iintDivide, iintDivideS, bintTimes (general path), bintDivide (a = q*b + r, truncation, sign of remainder), bintMod/bintModi, xxTimesDouble/xxDivideDouble/xxModDouble, fiBIntGcd, fiBIntSIPower/BIPower/PowerMod, bintToString/bintIntoString, bintFrString/bintScanFrString/bintRadixScanFrString: 64-bit multiplier/divider equivalences are beyond the SAT back end (probed: 2x2-digit product, DivideDouble re-multiplied, 120-900 s without result)",
     "OBSERVED, NOT DECIDED as a memory-safety question: iintShift evaluates bp[-1] == Placev(b)[-1] (bigint.c:2269, `x0 |= h ? bp[i] >> h : 0` with i == -1) on a left shift of a one-digit operand - an out-of-bounds read of the digit array, undefined behaviour in ISO C; on LE LP64 it loads the zero upper half of placec, so the VALUE is exact: jobs *.left_shift_of_one_digit.platform_layout prove exactness under that layout assumption, *.except_left_shift_of_one_digit prove everything else without it",
@@ -173,8 +173,10 @@ def jobs(tier):
     for f, me, other in (("bintPlus", "bintPlus", "bintMinus"), ("bintMinus", "bintMinus", "bintPlus")):
         for k, kn in KK:
             for sg in (0, 1, 2, 3):
-                if tier != "thorough" and (k in ("is", "si") or (k == "ii" and sg != 0)):
-                    continue        # shapes with an immediate: z3, 5-20 min each; quick tier keeps imm/imm in sign case 0 only
+                if tier != "thorough":
+                    continue        # whole-body jobs: 3-20 min each and with a large spread between runs (one stored/stored
+                                    # case took 156 s in one run and over 18 min in another): thorough tier only; the quick
+                                    # tier has the digit-level iintPlus/iintMinus contracts and the representation switch
                 J("bint.%s.%s.%s" % (f, kn, SGN[sg]), "h_%s_%s_sg%d" % (f, k, sg), [f] + INL,
                   bk("a")[:-1] + bk("b0")[:-1] + ["same", "m_pa"], cls="P" if k == "ii" else "B", bound=None if k == "ii" else B3,
                   unwind=["--slice-formula"] + UW(6, "uintLength.0:66") + ([] if k == "ss" else ["--z3"]),
@@ -182,6 +184,8 @@ def jobs(tier):
                   timeout=1200 if tier != "thorough" else 3000, mem_gb=12, checks=STD if k == "ss" else NOPTR,
                   assumed=["re-entries of bintPlus/bintMinus replaced by a model of the contract being checked (assume-guarantee; "
                            "the model's precondition incl. 'both operands non-negative' is an obligation at every re-entry, which closes the recursion)"])
+        if tier != "thorough":
+            continue
         # sign case a >= 0, b < 0: the bintPlus canary drops the sign of b, which only shows when b is negative
         J("canary.bint." + f, "h_%s_ss_sg2" % f, [f], bk("a")[:-1] + bk("b0")[:-1] + ["same", "m_pa"], cls="B", bound=B3,
           unwind=["--slice-formula"] + UW(6, "uintLength.0:66") + ["--stop-on-fail"], splice=ADDSUB,
